@@ -114,16 +114,20 @@ def judge_iterative(dep, rec, L, prop, probes):
     if len(E) and np.any(np.isnan(ll)):
         probe("returned_with_nan_likelihood:not-judged")
         return v, info
-    if A.randomize and A.path != "in_memory":
-        if A.perm is None:
-            v.append(Violation(prop, prop + ".shuffle", sig + ":randomize_prior_order-without-draw-from-sampler-generator", "no choice/permutation recorded"))
-        else:
-            perm = [int(x) for x in A.perm]
-            if len(set(perm)) != len(perm) or any(x < 0 or x >= N for x in perm):
-                v.append(Violation(prop, prop + ".shuffle", sig + ":shuffle-not-a-subset-without-repeats", str(perm[:30])))
-            elif perm[: len(E)] != list(E):
+    if A.randomize and A.perm is not None:
+        perm = [int(x) for x in A.perm]
+        if len(set(perm)) != len(perm) or any(x < 0 or x >= N for x in perm):
+            v.append(Violation(prop, prop + ".shuffle", sig + ":shuffle-not-a-subset-without-repeats", str(perm[:30])))
+        elif perm[: len(E)] != list(E):
+            packed = L.packed(op.get("data", 0), op.get("lib", 0))
+            if len(perm) >= len(E) and oracles.same_values(packed[perm[: len(E)]], packed[list(E)]):
+                E = perm[: len(E)]
+                info["E"] = E
+            else:
                 v.append(Violation(prop, prop + ".order", sig + ":evaluated-rows-differ-from-shuffled-order", "evaluated %s vs shuffle %s" % (list(E)[:20], perm[:20])))
-            probe("randomized_order")
+        probe("randomized_order")
+    elif A.randomize and A.path != "in_memory":
+        v.append(Violation(prop, prop + ".shuffle", sig + ":randomize_prior_order-without-draw-from-sampler-generator", "no choice/permutation recorded"))
     # ---- acceptance against the max over ALL evaluated rows, with the LAST uniform vector
     us = A.parent_uniform
     if not us:
